@@ -204,7 +204,8 @@ class ObjMachine(Machine):
             kw["indent"] = w.choice([" ", "    ", ""])
             kw["output"] = ["interface Eth2", "interface Eth3"]
         return dict(op="obj_new", cls=cls, line=line, kw=kw, members=members,
-                    note=w.randrange(len(NOTES)), subnote=w.random() < 0.5)
+                    note=w.randrange(len(NOTES)), subnote=w.random() < 0.5,
+                    nest=cls == "Address" and w.random() < 0.4)
 
     def _gen_cfg(self, w):
         cfg = self.cfg
@@ -414,6 +415,13 @@ class ObjMachine(Machine):
                     leaf.protocol.note = copy_mod.deepcopy(SUBNOTES[(k_ + 3) % len(SUBNOTES)])
         if op["cls"] == "Address" and obj.type == "addrgroup" and obj.addrgroup in op["members"]:
             obj.items = list(op["members"][obj.addrgroup])
+            if op.get("nest") and obj.items:
+                # a member that is a group with members of its own (export / rebuild carry it)
+                inner = Address(("addrgroup " if obj.platform == "nxos" else "object-group ")
+                                + "INNER", platform=obj.platform, note=["inner"],
+                                items=list(op["members"][obj.addrgroup]))
+                obj.items = [inner, *obj.items]
+                self.probes["nested_group_member"] += 1
         if op["cls"] == "AddrGroup" and op["subnote"]:
             for it in obj.items:
                 it.note = ["member"]
